@@ -437,7 +437,9 @@ pub fn build_runner(case: &RCase) -> runner::Basic<W> {
     if case.after {
         r = r.after(after_hook as runner::basic::AfterHookFn<W>);
     }
-    r
+    // A configured runner may be cloned before it is run (a base runner shared by several runs):
+    // every other case runs the clone.
+    if case.scenarios.len() % 2 == 1 { r.clone() } else { r }
 }
 
 pub fn build_cli(case: &RCase) -> runner::basic::Cli {
